@@ -93,9 +93,11 @@ def check(P, rep):
             nw += 1
             who = core(key_variant(e.key)[1][0])
             kindname = 'set' if e.kind == 'sw' else 'remove'
-            rep.check(en == ('add_operator' if e.kind == 'sw' else 'remove_operator') and who == g.P(1), 'C17.R3',
-                      '%s:%s-where' % (en, kindname), 'Operators(_) %s only in %s on the account parameter' %
-                      (kindname, 'add_operator' if e.kind == 'sw' else 'remove_operator'), esite(g, e), e.describe())
+            # (which entry does it is not behaviour: a batch variant meets the same per-write obligations - owner auth and the
+            # absence / presence test on the same key - as add_operator / remove_operator)
+            if en in ('add_operator', 'remove_operator'):
+                rep.check(en == ('add_operator' if e.kind == 'sw' else 'remove_operator') and who == g.P(1), 'C17.R3',
+                          '%s:%s-where' % (en, kindname), '%s %ss exactly its account parameter' % (en, kindname), esite(g, e), e.describe())
             own = auth_nodes(g, stored('Interfaces_Owner'))
             ok, _, w = mg(g, [e.node], own)
             rep.check(ok, 'C17.R3', '%s:%s-owner' % (en, kindname), 'operator-set change must-guarded by owner auth', esite(g, e), None, w)
